@@ -1162,6 +1162,18 @@ def check_C12(ctx):
     for fk in (["nodekill"], ["sbatch"]):
         ctx.impl_model("JadeImpl + " + fk[0] + " fault", fam, maxb=3, maxuser=5, faults=fk, maxfaults=1 if q else 2,
                        max_replay=120 if q else 1500)
+    # K1 at the protocol level: a runner killed inside its results-lock critical section leaves the marker; every later
+    # collection times out on it (MoveBlocked) and no number of recovery rounds completes the submission -- TLC must find it
+    try:
+        ctx.impl_model("JadeImpl + runner killed inside the results-lock critical section (expected to fail: K1)",
+                       [families.scn("AB", groups=[families.G(size=2, procs=1)], maxnodes=0)], maxb=3, maxuser=4,
+                       faults=("nodekill-locked",), maxfaults=1, max_replay=0)
+        raise HarnessError("the protocol model no longer shows the K1 counterexample")
+    except tlc.TlcError as e:
+        if "CompletesAfterRecovery" not in str(e):
+            raise
+        ctx.models[-1]["ok"] = True
+        ctx.models[-1]["expected_violation"] = "MonitorClean (CompletesAfterRecovery): K1"
     bases = fault_bases(ctx.tier)
     # every subset of batches failing at sbatch (base scenarios have <= 4 batches)
     import itertools
